@@ -68,7 +68,15 @@ def opts_text(o):
             v = o[k]
             parts.append("%s:%d" % (k, int(v)))
     if "th" in o:
-        parts.append("th:" + ",".join(map(str, o["th"])))
+        form = o.get("_thform")
+        if form == "scalar":
+            parts.append("ths:%d" % o["_thraw"])
+        elif form == "bool":
+            parts.append("thb:%d" % o["_thraw"])
+        elif form == "iter":
+            parts.append("thi:" + ",".join(map(str, o["_thraw"])))
+        else:
+            parts.append("th:" + ",".join(map(str, o["th"])))
     return ";".join(parts) if parts else "+"
 
 
@@ -166,7 +174,20 @@ def rand_opts(rng, profile, level):
     if rng.random() < p.get("p_ss", 0.5):
         o["ss"] = rng.choice([1, 1, 2, 3, 5]) if rng.random() > 0.05 else 0
     if rng.random() < p.get("p_th", 0.25):
-        o["th"] = rng.choice([[1], [2], [1, 2], [0], [3, 1], [2, 2, 1], [4], [], [1, 3, 2]])
+        # 0 stands for the available parallelism P: lists that also name P (or 0 twice) must collapse after resolution
+        P = PARALLELISM
+        o["th"] = rng.choice([[1], [2], [1, 2], [0], [3, 1], [2, 2, 1], [4], [], [1, 3, 2], [0, P], [P, 0], [0, 2, P], [0, 0], [P, P, 1]])
+        # how the attribute would have spelled it: a literal array (kept as is), or a scalar / bool / iterator that goes
+        # through the macro's IntoThreads conversions
+        r = rng.random()
+        if r < 0.3:
+            n = rng.choice([0, 1, 2, 3, 4, 5, 6, 8])
+            o["_thform"], o["_thraw"], o["th"] = "scalar", n, [n]
+        elif r < 0.4:
+            b = rng.choice([0, 1])
+            o["_thform"], o["_thraw"], o["th"] = "bool", b, [0] if b else [1]
+        elif r < 0.6:
+            o["_thform"], o["_thraw"] = "iter", list(o["th"])
     if rng.random() < p.get("p_ig", 0.2):
         o["ig"] = rng.choice([1, 1, 0])
     if rng.random() < p.get("p_ctr", 0.25):
